@@ -131,6 +131,7 @@ def world_tie_case(ctx: Ctx, case: Dict[str, Any], suite: str):
     # real entries per (rank, path), walked rank-major in state order (the model output is walked the same way)
     real_entries: List[List[Dict[str, Any]]] = []
     model_states: List[List[Dict[str, Any]]] = []
+    skip_model = False
     for r in range(W):
         ents, mst = [], []
         for k, d in case["states"][r]:
@@ -143,6 +144,13 @@ def world_tie_case(ctx: Ctx, case: Dict[str, Any], suite: str):
                 continue
             ce = canon_entry(e, p, p in rep_paths)
             v = saved[r][k]
+            if ce is None:
+                # the manifest records something that is not a payload entry for a payload leaf (e.g. a container entry for
+                # an opaque object): outside the model; the restore oracle below decides whether the property is broken
+                ctx.disagree("world_plan.entry_kind", {"case": case}, {"rank": r, "path": p, "entry": type(e).__name__},
+                             {"leaf": type(v).__name__}, "manifest entry kind unknown to the job model")
+                skip_model = True
+                continue
             if isinstance(v, torch.Tensor) and gen.DT_NAME.get(v.dtype) in BP:
                 leaf = {"k": "tensor", "dtype": gen.DT_NAME[v.dtype], "shape": list(v.shape), "bytes": list(gen.tensor_bytes(v))}
             else:
@@ -163,7 +171,7 @@ def world_tie_case(ctx: Ctx, case: Dict[str, Any], suite: str):
         model_states.append(mst)
 
     n_units = sum(len(x) for x in real_entries)
-    if ctx.driver and n_units:
+    if ctx.driver and n_units and not skip_model:
         req = {"op": "world_plan", "cfg": {"chunk": kn.get("chunk") or DEFAULT_CHUNK, "slab": kn.get("slab") or DEFAULT_SLAB,
                                             "batching": not kn.get("nobatch")},
                "states": model_states, "rep": [pid[p] for p in rep_paths], "owner": owners,
